@@ -152,8 +152,68 @@ pub fn mutate(args: &str, item_src: &str, donors: &[(String, String)], rng: &mut
         "#[ord(key = $)]", "#[ord(ignore, ignore)]", "#[ord(unknown)]", "#[default(1, 2)]", "#[repr(C)]", "#[doc = \"d\"]", "#[derive_ex(Foo)]",
         "#[derive_ex(Add)]", "#[eq(reverse)]", "#[debug(ignore, transparent)]", "#[derive_ex(Clone(bound(T : Clone)), Copy)]",
     ];
-    match rng.below(12) {
+    match rng.below(14) {
         0 => args = mutate_args(&args, rng),
+        12 | 13 => {
+            // rename a field / variant / the type / a generic parameter to an unusual identifier
+            let names = ["r#type", "r#match", "r#fn", "r#Self_", "_x", "__y", "self_", "this", "other", "state", "f", "rhs", "source", "lhs", "o",
+                "to_index", "H", "T", "Eq", "Fn", "Option", "Some", "None", "Ordering", "é", "x1", "r#async", "r#dyn", "r#u8", "Self_", "core", "std"];
+            let new = |rng: &mut Rng| -> syn::Ident {
+                let n = names[rng.below(names.len())];
+                if let Some(r) = n.strip_prefix("r#") {
+                    syn::Ident::new_raw(r, proc_macro2::Span::call_site())
+                } else {
+                    syn::Ident::new(n, proc_macro2::Span::call_site())
+                }
+            };
+            match &mut item {
+                syn::Item::Struct(st) => match rng.below(3) {
+                    0 => st.ident = new(rng),
+                    1 => {
+                        let n = st.fields.len();
+                        if n > 0 {
+                            let k = rng.below(n);
+                            if let Some(f) = st.fields.iter_mut().nth(k) {
+                                if f.ident.is_some() {
+                                    f.ident = Some(new(rng));
+                                }
+                            }
+                        }
+                    }
+                    _ => {
+                        for p in st.generics.params.iter_mut() {
+                            if let syn::GenericParam::Type(t) = p {
+                                if rng.below(2) == 0 {
+                                    t.ident = new(rng);
+                                }
+                            }
+                        }
+                    }
+                },
+                syn::Item::Enum(en) => match rng.below(3) {
+                    0 => en.ident = new(rng),
+                    1 => {
+                        let n = en.variants.len();
+                        if n > 0 {
+                            let k = rng.below(n);
+                            if let Some(v) = en.variants.iter_mut().nth(k) {
+                                v.ident = new(rng);
+                            }
+                        }
+                    }
+                    _ => {
+                        for v in en.variants.iter_mut() {
+                            for f in v.fields.iter_mut() {
+                                if f.ident.is_some() && rng.below(2) == 0 {
+                                    f.ident = Some(new(rng));
+                                }
+                            }
+                        }
+                    }
+                },
+                _ => {}
+            }
+        }
         1 | 2 | 3 => {
             // attribute level: delete / duplicate / swap / insert / move
             let mut slots = all_attr_slots(&mut item);
